@@ -221,3 +221,7 @@ if "replay_jobs" in globals():
 
 XBT = [lns_streams("arith", 1, 1), areal_streams("assign", 1, 1)]
 XBT_HARNESS = ["h_lns_u8", "h_lns_u16", "h_lns_u32", "h_areal_u8", "h_areal_u16", "h_areal_u32"]
+
+C20_HARNESS = {"h_lns_u16_san": dict(src="h_lns.cpp", flags=["-DUV_BT=16"] + SAN), "h_areal_u8_san": dict(src="h_areal.cpp", flags=["-DUV_BT=8"] + SAN)}
+C20_MAP = {"h_lns_u16": "h_lns_u16_san", "h_areal_u8": "h_areal_u8_san"}
+C20_STREAMS = [lns_streams("arith", 600, 20000), areal_streams("assign", 40, 2000), areal_streams("native", 60, 3000)]
